@@ -582,3 +582,80 @@ def fam_clone_markers():
             m1 = dict(name="m1", schedule="active", frames=[dict(name="f0", items=recs("f0", ctxs) + [("auxclone", "mw", "mine"), ("auxclone", "mw", "c")])])
             yield ("clonemarkers/%s/%s/one-main" % (kind, inframe),
                    dict(tick=0.125, inits=[("x", 0)], framers=[m1, mo]), dict(kind="xwrites"))
+
+
+# ------------------------------------------------------------------------------- pairwise feature interaction (C07)
+
+def pair_menu():
+    """Item templates for the pairwise family: (name, [items])."""
+    V1 = ("cmp", "v", "==", 1, None, False)
+    return [
+        ("go3-e0", [("go", "f3", [E0])]),
+        ("go2-e0", [("go", "f2", [E0])]),
+        ("gome-e1", [("go", "me", [E1])]),
+        ("go0-e1", [("go", "f0", [E1])]),
+        ("go1-e1", [("go", "f1", [E1])]),
+        ("timeout", [("timeout", 0.25)]),
+        ("repeat", [("repeat", 2)]),
+        ("let-e1", [("let", [E1])]),
+        ("aux-x", [("aux", "x")]),
+        ("aux-y", [("aux", "y")]),
+        ("auxif-x-e0", [("auxif", "x", [E0])]),
+        ("auxif-y-e1", [("auxif", "y", [E1])]),
+        ("bid-stop-me", [("bid", "recur", "stop", ["me"], None)]),
+        ("bid-stop-z", [("bid", "enter", "stop", ["z"], None)]),
+        ("bid-start-z", [("bid", "exit", "start", ["z"], None)]),
+        ("bid-abort-z-e", [("bid", "enter", "abort", ["z"], None)]),
+        ("fiat-start-s", [("fiat", "enter", "start", "s")]),
+        ("fiat-run-s", [("fiat", "recur", "run", "s")]),
+        ("fiat-stop-s", [("fiat", "exit", "stop", "s")]),
+        ("put-v", [("put", "enter", 1, "v"), ("go", "f3", [V1, E1])]),
+        ("put-v0-exit", [("put", "exit", 0, "v")]),
+        ("inc-c", [("inc", "recur", "c", 1), ("go", "f3", [("cmp", "c", ">=", 3, None, False)])]),
+        ("go-xdone", [("go", "f3", [("done", "x", False), E1])]),
+        ("go-anydone", [("go", "f3", [("auxdone", "any", None, False)])]),
+        ("go-upd", [("go", "f3", [("updated", "v", "me", None, False)])]),
+        ("done-x", [("done", "recur", ["x"])]),
+    ]
+
+
+def fam_pairs(first_variants=(None, "f2")):
+    """Every unordered pair of feature templates, each placed on every frame of the fork f0 > {f1, f2} (+ root f3
+    that always returns to f0 on e1), started in the primary or the non-primary branch.  Auxiliaries x (done after one
+    run) and y (never), slave s (two nested frames) and a second scheduled framer z are available to the templates."""
+    ctxs = ("enter", "exit", "recur")
+    names = ["f0", "f1", "f2", "f3"]
+    parents = (None, 0, 0, None)
+    menu = pair_menu()
+    extra = [aux_framer("x", "repeat1"), aux_framer("y", "never"),
+             dict(name="s", schedule="slave", frames=[dict(name="s0", items=recs("s0", ctxs)),
+                                                      dict(name="s1", over="s0", items=recs("s1", ctxs))]),
+             dict(name="z", schedule="active", frames=[dict(name="z0", items=recs("z0", ctxs)),
+                                                       dict(name="z1", over="z0", items=recs("z1", ctxs))])]
+    for i, (na, ia) in enumerate(menu):
+        for j, (nb, ib) in enumerate(menu):
+            if j < i:
+                continue
+            for pa in range(3):
+                for pb in range(3):
+                    if i == j and pb < pa:
+                        continue
+                    if i == j and pa == pb:
+                        continue
+                    for first in first_variants:
+                        frames = []
+                        for k, nm in enumerate(names):
+                            items = recs(nm, ctxs)
+                            if k == pa:
+                                items = items + list(ia)
+                            if k == pb:
+                                items = items + list(ib)
+                            if k == 3:
+                                items = items + [("go", "f0", [E1])]
+                            frames.append(dict(name=nm, over=names[parents[k]] if parents[k] is not None else None, items=items))
+                        fm = dict(name="m", schedule="active", frames=frames)
+                        if first:
+                            fm["first"] = first
+                        yield ("pairs/%s@%d+%s@%d/first-%s" % (na, pa, nb, pb, first),
+                               dict(tick=0.125, inits=list(ENV_INITS) + [("v", 0), ("c", 0)], framers=[fm] + extra),
+                               dict(kind="pairs"))
